@@ -8,3 +8,5 @@ import os_common
 O = os_common.pairs()
 PAIRS += [O[k] for k in ("page_align", "os_commit_ex", "os_purge_ex")]
 PAIRS += [A[k] for k in ("arena_try_purge", "purge_range", "arena_purge_seq")]      # a purge pass never hands an in-use block to the OS purge
+import opt_common as _oc
+PAIRS += _oc.pairs()      # the option getters (assumed over the logical array g_opt by all pairs above) enforced on the real options.c: get = table value after lazy init, is_enabled = (get != 0), get_clamp = clamp(get)
